@@ -51,6 +51,22 @@ M = [
  ("c16-deref-guard", ["C16"], IT, "if fields.len() != 1 {", "if fields.len() > 1 {"),
  ("c19-dump-message", ["C19"], IT, '(Ok(ts), true) => Error::new(self.span, format!("dump:\\n{ts}")).to_compile_error(),', '(Ok(_ts), true) => Error::new(self.span, format!("dump:\\n{}", self.kind)).to_compile_error(),'),
  ("c19-impl-dump-cond", ["C19"], II, "    if args.dump {\n        bail!", "    if args.dump && args.make_binary {\n        bail!"),
+ # ---- targeted at rules that no other stored change makes fire (tools/census.py): property[:rule that must be among the fired ones]
+ ("r-coherence-hash", ["C02:DM-coherence-hash"], CO, "if self.hash.ignore.value() || self.eq.ignore.value() || self.ord.ignore.value() {", "if self.hash.ignore.value() || self.ord.ignore.value() {"),
+ ("r-debug-two-transparent", ["C10:DM-debug-mode"], IT, 'bail!(span, "only one field can be set `#[debug(transparent)]`");', '{ let _ = span; }'),
+ ("r-to-rhs-ignores-arg", ["C09:DM-to_rhs"], II, "                return expand_self(ty, self_ty);", "                return ty.clone();"),
+ ("r-verify-variant-reverse", ["C05:DM-verify"], CO, '                if let Some(span) = self.reverse.span {\n                    bail!(span, "cannot specify `reverse` for enum variants");\n                }', ""),
+ ("r-wcb-drops-predicates", ["C03:DM-wcb"], BO, "        for p in self.preds {\n            ws.push(quote!(#p));\n        }", "        let _ = &self.preds;"),
+ ("r-wcb-field-unconditional", ["C03:DM-wcb"], BO, "        if self.gps.contains_in_type(&field.ty) {\n            self.types.push(field.ty.clone());\n        }", "        self.types.push(field.ty.clone());"),
+ ("r-struct-clone-wrong-field", ["C07:TP-clone"], IT, "        ctor_args.push(quote!(<#field_ty as #trait_>::clone(&#lhs)));", "        ctor_args.push(quote!(<#field_ty as #trait_>::clone(&#rhs)));"),
+ ("r-deref-target-ref", ["C18:TP-deref"], IT, "                type Target = #target_ty;\n                fn deref(&self) -> & #target_ty {\n                    &self.#member", "                type Target = <#target_ty as ::core::ops::Deref>::Target;\n                fn deref(&self) -> &Self::Target {\n                    &*self.#member"),
+ ("r-key-apply-skips-groups", ["C01:TP-key-apply"], CO, "        } else if let TokenTree::Group(g) = &i {", "        } else if let (TokenTree::Group(g), false) = (&i, true) {"),
+ ("r-ord-ignores-later-fields", ["C01:TP-first-non-equal"], CO, "                    ::core::cmp::Ordering::Equal => {}\n                    o => return o,", "                    ::core::cmp::Ordering::Equal => {}\n                    _ => {}"),
+ ("r-from-fields-reversed", ["C07:ES-same-source"], IT, "        fields\n            .iter()\n            .enumerate()\n            .map(|(index, field)| Self::new(index, field, kinds))", "        fields\n            .iter()\n            .rev()\n            .enumerate()\n            .map(|(index, field)| Self::new(index, field, kinds))"),
+ ("r-variant-attrs-as-type", ["C05:ES-verify-reached"], IT, "HelperAttributes::from_attrs(&variant.attrs, AttributeTarget::Variant, kinds)", "HelperAttributes::from_attrs(&variant.attrs, AttributeTarget::Type, kinds)"),
+ ("r-entry-panics", ["C16:ES-entry-total"], LB, "    let mut item: TokenStream = item.into();\n    match build(attr.into(), item.clone()) {", "    let mut item: TokenStream = item.into();\n    assert!(!item.is_empty());\n    match build(attr.into(), item.clone()) {"),
+ ("r-debug-where-dropped", ["C03:TP-where-retained"], IT, "        impl #impl_g #trait_ for #this_ty #wheres {\n            fn fmt(&self, f: &mut ::core::fmt::Formatter) -> ::core::fmt::Result {\n                #expr", "        impl #impl_g #trait_ for #this_ty {\n            fn fmt(&self, f: &mut ::core::fmt::Formatter) -> ::core::fmt::Result {\n                #expr"),
+ ("r-debug-where-other-trait", ["C03:TP-where-trait"], IT, "        &mut wcb,\n    )?;\n    let wheres = wcb.build(|ty| quote!(#ty : #trait_));\n    Ok(quote! {\n        #[automatically_derived]\n        impl #impl_g #trait_ for #this_ty #wheres {\n            fn fmt(", "        &mut wcb,\n    )?;\n    let wheres = wcb.build(|ty| quote!(#ty : ::core::clone::Clone));\n    Ok(quote! {\n        #[automatically_derived]\n        impl #impl_g #trait_ for #this_ty #wheres {\n            fn fmt("),
  # benign variants: every listed property must stay silent
  ("benign-rename-local", [], IT, "let use_bounds = e.push_bounds_to(&mut wcb);\n    let mut ctor_args = Vec::new();\n    let mut clone_from_exprs = Vec::new();", "let use_bounds = e.push_bounds_to(&mut wcb);\n    let mut ctor_args = Vec::new();\n    let mut clone_from_exprs = Vec::new();\n    let _unused_marker = 0;"),
 ]
@@ -77,6 +93,8 @@ def main():
             detail.append("tests: " + (t.stdout.strip() or "all pass"))
         check = props if props else BENIGN_PROPS
         for pr in check:
+            want_rule = None
+            if ":" in pr: pr, want_rule = pr.split(":", 1)
             if pr in ("C14", "C16"):
                 c = sh(f"cd {V} && VERIF_REPO={WT} VERIF_OUT={VS} timeout 900 ./check {pr}")
             else:
@@ -84,6 +102,9 @@ def main():
             fired = "VIOLATION property=" in c.stdout
             want = bool(props)
             if fired != want: ok = False
+            import re
+            rules = sorted({m.group(1) for m in re.finditer(r"^([A-Za-z][A-Za-z_-]+): .*\[[^\]]*\|[^\]]*\]", c.stdout, re.M)})
+            if want_rule and want_rule not in rules: ok = False; detail.append(f"{pr}: rule {want_rule} did not fire; fired: {rules}")
             first = next((l for l in c.stdout.splitlines() if not l.startswith("VIOLATION") and "|" in l), "")
             detail.append(f"{pr}: {'FIRED' if fired else 'silent'} {first[:160]}")
         print(f"{name}: {'ok' if ok else 'MISMATCH'}"); [print("    " + d) for d in detail]
